@@ -186,3 +186,21 @@ package mvs
 //@   requires root != nil
 //@   callsite Compare: assert decides-against-the-selected-version: exists j: int :: 0 <= j && j < len(buildList) && buildList[j].Version == $0
 //@   modifies heap, smap
+
+// `@latest` and range queries: the walk over the tags stops (and an answer is chosen) only at a tag of
+// the queried project whose major version matches the path's; a tag that does not qualify is never
+// the answer. (majormatch names the result of majorVersionMatch.)
+//@ specfn majormatch(string, string) bool
+//@ smt <<<
+//@ (declare-fun majormatch (Str Str) Bool)
+//@ >>>
+//@ func mvs.majorVersionMatch
+//@   trusted
+//@   ensures result == majormatch(major, ver)
+//@ func (*mvs.querier).resolveLatestQuery$1
+//@   ensures stops-only-at-a-qualifying-tag: !result ==> (majormatch(old(majorVersion), old(v.Version.Version)) && old(v.Version.Path) == old(query.path))
+//@   ensures remembers-only-qualifying-prereleases: (prerelease != old(prerelease)) ==> (prerelease == v && majormatch(old(majorVersion), old(v.Version.Version)) && old(v.Version.Path) == old(query.path))
+//@   modifies heap
+//@ func (*mvs.querier).resolveSemverRangeQuery$1
+//@   ensures stops-only-at-a-qualifying-tag: !result ==> (majormatch(old(majorVersion), old(v.Version.Version)) && old(v.Version.Path) == old(query.path))
+//@   modifies heap
